@@ -37,6 +37,14 @@ TEMPLATES = [
     ("std-cond-arrow", "(%l (cond (#f 0) ((%l U1) U2 (%add U1 1))))", "5", "2", "(6)"),
     ("std-guard-else", "(guard (exn (U2 'first) (#t (%l 'second U1))) (raise 'boom))", "5", "#f", "(second 5)"),
     ("std-case-arrow", "(%l (case U1 ((5) U2 (%add U1 1)) ((6) 'six)))", "5", "2", "(6)"),
+    # let-syntax is not letrec-syntax: an identifier inserted by one keyword's template refers to the binding OUTSIDE the form, even
+    # when a sibling keyword of the same form has that name (R7RS 4.3.1)
+    ("let-syntax-sibling", "(let-syntax ((helper (syntax-rules () ((_ x) (%l 'sibling x)))) (use (syntax-rules () ((_ y) (helper y))))) (%l (use U1) U2))", "1", "2", "((h 1) 2)"),
+    ("letrec-syntax-sibling", "(letrec-syntax ((helper (syntax-rules () ((_ x) (%l 'sibling x)))) (use (syntax-rules () ((_ y) (helper y))))) (%l (use U1) U2))", "1", "2", "((sibling 1) 2)"),
+    ("let-syntax-self", "(let-syntax ((helper (syntax-rules () ((_ x) (helper x))))) (%l (helper U1) U2))", "1", "2", "((h 1) 2)"),
+    # identifiers supplied by the template of a macro-defining macro: free in one generated macro, a binder in its sibling
+    ("with-x", "(%l (with-x g w (w (g))) (with-x g w (%l (g) (w (g)) (w (w (g))))) U1 U2)", "1", "2", "(outer-x (outer-x outer-x outer-x) 1 2)"),
+    ("collector", "(%l (collect (U1 U2 U1) () ()) U2)", "1", "2", "((1 2 1) 2)"),
     ("else-lit-er", "(%l (else-lit-er else) (else-lit-er U1))", "1", "2", "(is-else not-else)"),
 ]
 
